@@ -72,6 +72,7 @@ struct DaemonScenario : Scenario {
   size_t tick_pos = std::string::npos, tick_end = 0; int tick_cnt = 0;
   bool catchall = false;         // control/virtualdomains also has a catch-all entry and an exception
   int held_ticks = 0, burned = 0;
+  int hups_since_start = 0;
   bool clockback = false, clock_was_set_back = false;   // option clockback=1
   bool queue_refusals = false;   // option queuerefuse=1: the bounce's queue program may exit 31 / 53 (alternatives())
   bool hupedit = false, config_b = false;   // C10: every HUP is preceded by an edit of locals/virtualdomains (far.example becomes local, virt2.example virtual) / back
@@ -134,7 +135,7 @@ struct DaemonScenario : Scenario {
   }
 
   void start_daemon(World &w) {
-    Kernel &k = w.k; pending_tail[0].clear(); pending_tail[1].clear();
+    Kernel &k = w.k; pending_tail[0].clear(); pending_tail[1].clear(); hups_since_start = 0;
     int lc_r, lc_w, lr_r, lr_w, rc_r, rc_w, rr_r, rr_w, qc_r, qc_w, cq_r, cq_w;
     k.make_pipe(&lc_r, &lc_w); k.make_pipe(&lr_r, &lr_w); k.make_pipe(&rc_r, &rc_w); k.make_pipe(&rr_r, &rr_w); k.make_pipe(&qc_r, &qc_w); k.make_pipe(&cq_r, &cq_w);
     // the controller is the spawner: it holds the read ends of the command pipes and the write ends of the report pipes
@@ -381,6 +382,7 @@ struct DaemonScenario : Scenario {
 
   // ------------------------------------------------------------------ step monitors
   void after_step(World &w, Proc &p, const Step &st) override {
+    if (st.sigraised == SIGHUP && hupedit) { config_b = !config_b; write_routing_controls(w); history += config_b ? " EDIT+HUP-during-reread(far.example local, virt2.example virtual)" : " EDIT+HUP-during-reread(back)"; w.counters["control_edits"]++; w.counters["hup_during_reread"]++; return; }
     if (st.op == VK_WRITE && (st.tag == TAG_LCMD || st.tag == TAG_RCMD) && st.ret > 0) drain_commands(w, st.tag == TAG_LCMD ? 0 : 1);
     if (st.injected && st.err && p.vpid == sendpid) { markfifo[0].clear(); markfifo[1].clear(); mark_check_off = true; }   // a mark may not get written: alignment is lost
     if (st.injected && st.err) { faults_seen++; w.counters["faults_injected"]++; history += " FAULT(" + opname(st.op) + " " + st.path + ")";
@@ -519,6 +521,8 @@ struct DaemonScenario : Scenario {
   }
   // ------------------------------------------------------------------ crash handling
   void alternatives(World &w, Proc &p, const Req &r, std::vector<Alt> &a) override {
+    // C10: a second edit + HUP lands while the daemon is still rereading its control files after the first one
+    if (hupedit && hups_since_start > 0 && p.vpid == sendpid && r.op == VK_OPEN && r.data.compare(0, 8, "control/") == 0 && w.ex->bound[BK_ENV] > 0 && !p.in_handler) a.push_back({BK_ENV, ALT_SIGNAL, SIGHUP});
     // the queue program the daemon starts for a bounce (qmail-queue, or whatever QMAILQUEUE names) may refuse: permanently (31) or temporarily (53)
     if (r.op == VK_EXEC && p.ppid == sendpid && sendpid && w.ex->bound[BK_FAULT] > 0 && queue_refusals && r.data.find("qmail-queue") != std::string::npos) { a.push_back({BK_FAULT, ALT_EXIT, 31}); a.push_back({BK_FAULT, ALT_EXIT, 53}); return; }
     bool mut = false;
@@ -689,6 +693,7 @@ struct DaemonScenario : Scenario {
   void send_signal(World &w, int which) {
     Proc *p = proc(w, sendpid); if (!p) return;
     static const int sigs[] = {SIGTERM, SIGALRM, SIGHUP}; static const char *names[] = {"TERM", "ALRM", "HUP"};
+    if (which == 2) hups_since_start++;
     if (which == 2 && hupedit) { config_b = !config_b; write_routing_controls(w); history += config_b ? " EDIT(far.example local, virt2.example virtual)" : " EDIT(back)"; w.counters["control_edits"]++; }
     w.raise_sig(*p, sigs[which]); history += std::string(" ") + names[which]; w.counters[std::string("signal_") + names[which]]++;
     if (which == 0) { term_sent = true; for (auto &kv : ledger) for (int c = 0; c < 2; c++) if (kv.second.pass_started[c] && !kv.second.gone && !kv.second.pass_eof[c]) kv.second.term_open_pass[c] = true; }
